@@ -73,12 +73,12 @@ where
                 #(#querier_methods_declaration)*
             }
 
-            impl <'a, CustomQueryT: #sylvia ::cw_std::CustomQuery, #(#all_generics,)*> Querier for #sylvia ::types::BoundQuerier<'a, CustomQueryT, dyn #interface_name <#( #all_generics = #all_generics,)*> > #where_clause {
+            impl <'a, CustomQueryT: #sylvia ::cw_std::CustomQuery, #(#all_generics,)*> self::Querier for #sylvia ::types::BoundQuerier<'a, CustomQueryT, dyn #interface_name <#( #all_generics = #all_generics,)*> > #where_clause {
                 #(type #generics = #generics;)*
                 #(#methods_trait_impl)*
             }
 
-            impl <'a, CustomQueryT: #sylvia ::cw_std::CustomQuery, ContractT: #interface_name> Querier for #sylvia ::types::BoundQuerier<'a, CustomQueryT, ContractT> {
+            impl <'a, CustomQueryT: #sylvia ::cw_std::CustomQuery, ContractT: #interface_name> self::Querier for #sylvia ::types::BoundQuerier<'a, CustomQueryT, ContractT> {
                 #(type #generics = <ContractT as #interface_name > :: #generics;)*
                 #(#methods_trait_impl)*
             }
